@@ -390,7 +390,7 @@ IX_POOL = (1, 2, 3, 'a')
 
 def body_index_equals(env, kind_a, kind_b, la, lb, na, nb, compare_name, compare_class, compare_dtype, target):
     from vf import rt
-    kind_a, kind_b = concretize(kind_a, 0, 3), concretize(kind_b, 0, 3)
+    kind_a, kind_b = concretize(kind_a, 0, 4), concretize(kind_b, 0, 4)
     la, lb, na, nb, target = concretize(la, 0, 3), concretize(lb, 0, 3), concretize(na, 0, 1), concretize(nb, 0, 1), concretize(target, 0, 1)
     compare_name, compare_class, compare_dtype = bool(compare_name), bool(compare_class), bool(compare_dtype)
 
@@ -407,7 +407,11 @@ def body_index_equals(env, kind_a, kind_b, la, lb, na, nb, compare_name, compare
                 return sf.IndexGO(sets[which], name=name), 'IndexGO', sets[which], ('i' if which != 3 else 'O')
             if kind == 2:
                 return sf.Index(env.array([float(x) if not isinstance(x, str) else x for x in sets[which]], 'float64' if which != 3 else 'object'), name=name), 'Index', sets[which], ('f' if which != 3 else 'O')
-            return sf.IndexHierarchy.from_labels(hsets[which], name=name), 'IndexHierarchy', hsets[which], 'H'
+            if kind == 3:
+                return sf.IndexHierarchy.from_labels(hsets[which], name=name), 'IndexHierarchy', hsets[which], 'H'
+            # kind 4: the automatically supplied 0..n-1 index of a Series built without labels (no label map)
+            n = 2 if which in (0, 1) else (3 if which == 2 else 1)
+            return sf.Series(env.array([0] * n, 'int64')).index.rename(name), 'Index', list(range(n)), 'i'
         a, cls_a, labs_a, dt_a = mk(kind_a, la, ('n', 'm')[na])
         b, cls_b, labs_b, dt_b = mk(kind_b, lb, ('n', 'm')[nb])
         comparable = (cls_a == 'IndexHierarchy') == (cls_b == 'IndexHierarchy')
@@ -429,8 +433,56 @@ def body_index_equals(env, kind_a, kind_b, la, lb, na, nb, compare_name, compare
 
 _add(Cond('index_equals_kinds_and_flags', [('kind_a', 'int'), ('kind_b', 'int'), ('la', 'int'), ('lb', 'int'), ('na', 'int'), ('nb', 'int'),
                                          ('compare_name', 'bool'), ('compare_class', 'bool'), ('compare_dtype', 'bool'), ('target', 'int')], body_index_equals,
-        ranges={'kind_a': (0, 3), 'kind_b': (0, 3), 'la': (0, 3), 'lb': (0, 3), 'na': (0, 1), 'nb': (0, 1), 'target': (0, 1)},
+        ranges={'kind_a': (0, 4), 'kind_b': (0, 4), 'la': (0, 3), 'lb': (0, 3), 'na': (0, 1), 'nb': (0, 1), 'target': (0, 1)},
         pre=['kind_a <= kind_b', 'target == 0 or (not compare_name and not compare_class and na == 0 and nb == 0)', 'la <= 1 or lb <= 1 or la == lb'],
         functions=['Index.equals', 'IndexHierarchy.equals'],
-        bounds='two indices, each Index / IndexGO / float-typed Index / IndexHierarchy (symbolic) over one of four label sets (same, permuted, longer, object labels), names symbolic; compare_name / compare_class / compare_dtype symbolic; Index.equals in both directions, or Series.equals over them',
+        bounds='two indices, each Index / IndexGO / float-typed Index / IndexHierarchy / automatically supplied integer index (symbolic) over one of four label sets (same, permuted, longer, object labels), names symbolic; compare_name / compare_class / compare_dtype symbolic; Index.equals in both directions, or Series.equals over them',
         route='Index / IndexHierarchy.equals: true iff same labels in the same order and every requested conjunct (name, class, dtype) holds; symmetric; Series.equals follows its index', timeout=600))
+
+
+
+# ------------------------------------------------------------------------------------------------
+# 9. hierarchies that SHARE one inner Index object across outer groups (from_product) against hierarchies that do not
+
+def body_hier_shared_inner(env, pos, repl, perm, target, left_product):
+    from vf import rt
+    pos, repl, target = concretize(pos, 0, 4), concretize(repl, 10, 12), concretize(target, 0, 2)
+    perm, left_product = bool(perm), bool(left_product)
+
+    def run():
+        sf = env.sf
+        base = [(0, 10), (0, 11), (1, 10), (1, 11), (2, 10), (2, 11)]
+        other = list(base)
+        if pos < 4:
+            # one inner label of the first or second outer group replaced (pos 4: identical)
+            o, i = other[pos]
+            if repl != i and (o, repl) not in other:
+                other[pos] = (o, repl)
+        if perm:
+            other[2], other[3] = other[3], other[2]
+        prod = sf.IndexHierarchy.from_product((0, 1, 2), (10, 11))
+        lab = sf.IndexHierarchy.from_labels(other)
+        a, b = (prod, lab) if left_product else (lab, prod)
+        e = base == other
+        if target == 0:
+            got = [env.obs(a.equals(b)), env.obs(b.equals(a))]
+        elif target == 1:
+            sa = sf.Series(env.array(list(range(6)), 'int64'), index=a)
+            sb = sf.Series(env.array(list(range(6)), 'int64'), index=b)
+            got = [env.obs(sa.equals(sb)), env.obs(sb.equals(sa))]
+        else:
+            fa = sf.FrameHE(env.array([list(range(6))], 'int64'), columns=a)
+            fb = sf.FrameHE(env.array([list(range(6))], 'int64'), columns=b)
+            got = [env.obs(fa == fb), env.obs(fb == fa)]
+            if got[0]:
+                got.append(hash(fa) == hash(fb))
+                return got, [e, e, True]
+        return got, [e, e]
+    return rt.untraced(run)
+
+
+_add(Cond('hierarchy_equals_shared_inner_index', [('pos', 'int'), ('repl', 'int'), ('perm', 'bool'), ('target', 'int'), ('left_product', 'bool')], body_hier_shared_inner,
+        ranges={'pos': (0, 4), 'repl': (10, 12), 'target': (0, 2)},
+        functions=['IndexLevel.equals', 'IndexHierarchy.equals'],
+        bounds='3x2 product hierarchy (from_product: one inner Index object shared by all outer groups) against a from_labels hierarchy with one inner label symbolically replaced (position and label) and / or one group permuted; compared as indices, as Series indices, as FrameHE columns (symbolic), either side first',
+        route='IndexHierarchy / Series / FrameHE equality over hierarchies that share inner Index objects: true iff the tuple sequences are equal; symmetric', timeout=400))
